@@ -59,7 +59,9 @@ def _base(mt):
 
 
 def _extra_key(mt, k):
-    md = LMap(_base(mt) + [(k, 1)])
+    # the extra key carries a value of the kind its documented namesake takes (a list of names / a flag)
+    val = ["extralib"] if (k == "link_libraries" or k == "include_files") else True
+    md = LMap(_base(mt) + [(k, val)])
     try:
         r = process_metadata([md])
     except ValueError:
